@@ -87,8 +87,10 @@ def translate(repo):
         raise TranslatorError("_to_string signature")
     body = _strip_doc(fn.body)
     loops = [s for s in body if isinstance(s, ast.For)]
-    if len(loops) != 1 or not isinstance(body[-1], ast.Return) or not _is_name(body[-1].value, "output"):
-        raise TranslatorError("_to_string: one loop followed by `return output` expected")
+    if len(loops) != 1 or not isinstance(body[-1], ast.Return) or not isinstance(body[-1].value, ast.Name):
+        raise TranslatorError("_to_string: one loop followed by `return <list>` expected")
+    OUTPUT = body[-1].value.id          # the list of term texts
+    INDICES = None                      # the sorted index list
     pre = body[:body.index(loops[0])]
     if body.index(loops[0]) != len(body) - 2:
         raise TranslatorError("_to_string: statements between the loop and the return")
@@ -106,9 +108,10 @@ def translate(repo):
                 coefs = tgt.id
             elif chain == "numpoly.get_options" and not v.args and not v.keywords:
                 optvar = tgt.id
-            elif isinstance(v, ast.List) and not v.elts and tgt.id == "output":
+            elif isinstance(v, ast.List) and not v.elts and tgt.id == OUTPUT:
                 seen_out = True
-            elif chain == "numpoly.glexsort" and tgt.id == "indices":
+            elif chain == "numpoly.glexsort":
+                INDICES = tgt.id
                 if exps is None or optvar is None:
                     raise TranslatorError("glexsort before exponents/options are bound")
                 if not (len(v.args) == 1 and isinstance(v.args[0], ast.Attribute) and v.args[0].attr == "T"
@@ -122,10 +125,10 @@ def translate(repo):
                 seen_sort = True
             else:
                 raise TranslatorError(f"_to_string: unrecognised assignment to {tgt.id}")
-        elif isinstance(st, ast.If) and seen_sort and not st.orelse and len(st.body) == 1 and _assign_to(st.body[0], "indices"):
+        elif isinstance(st, ast.If) and seen_sort and not st.orelse and len(st.body) == 1 and _assign_to(st.body[0], INDICES):
             facts["inverse_key"] = _option(st.test, optvar)
             v = st.body[0].value
-            ok = (isinstance(v, ast.Subscript) and _is_name(v.value, "indices") and isinstance(v.slice, ast.Slice)
+            ok = (isinstance(v, ast.Subscript) and _is_name(v.value, INDICES) and isinstance(v.slice, ast.Slice)
                   and v.slice.lower is None and v.slice.upper is None and _const(v.slice.step, -1))
             if not ok:
                 raise TranslatorError("display_inverse branch is not indices[::-1]")
@@ -137,7 +140,7 @@ def translate(repo):
         raise TranslatorError("_to_string: preamble incomplete")
 
     loop = loops[0]
-    if not (_is_name(loop.iter, "indices") and isinstance(loop.target, ast.Name)) or loop.orelse:
+    if not (_is_name(loop.iter, INDICES) and isinstance(loop.target, ast.Name)) or loop.orelse:
         raise TranslatorError("loop header")
     idx = loop.target.id
     lb = list(loop.body)
@@ -168,8 +171,13 @@ def translate(repo):
                 and isinstance(t.values[1], ast.Call) and _is_name(t.values[1].func, "any")
                 and len(t.values[1].args) == 1 and _sub(t.values[1].args[0], exps, idx))
 
+    if not (isinstance(st, ast.If) and len(st.body) == 1 and isinstance(st.body[0], ast.Assign)
+            and len(st.body[0].targets) == 1 and isinstance(st.body[0].targets[0], ast.Name)):
+        raise TranslatorError("elision of coefficient 1 not recognised")
+    OUT = st.body[0].targets[0].id      # the text of the current term
+
     def out_is(stmts, pred):
-        return len(stmts) == 1 and _assign_to(stmts[0], "out") and pred(stmts[0].value)
+        return len(stmts) == 1 and _assign_to(stmts[0], OUT) and pred(stmts[0].value)
 
     ok = (isinstance(st, ast.If) and elide_test(st.test, 1) and out_is(st.body, lambda v: _const(v, ""))
           and len(st.orelse) == 1 and isinstance(st.orelse[0], ast.If))
@@ -205,11 +213,11 @@ def translate(repo):
     f1, f2 = floop.body
     ok1 = (isinstance(f1, ast.If) and _is_name(f1.test, ev) and not f1.orelse and len(f1.body) == 2
            and isinstance(f1.body[0], ast.If) and not f1.body[0].orelse and len(f1.body[0].body) == 1
-           and _augadd(f1.body[0].body[0], "out") and _augadd(f1.body[1], "out") and _is_name(f1.body[1].value, nv))
+           and _augadd(f1.body[0].body[0], OUT) and _augadd(f1.body[1], OUT) and _is_name(f1.body[1].value, nv))
     if not ok1:
         raise TranslatorError("name factor not recognised")
     g = f1.body[0].test
-    okg = (isinstance(g, ast.Compare) and _is_name(g.left, "out") and len(g.ops) == 1 and isinstance(g.ops[0], ast.NotIn)
+    okg = (isinstance(g, ast.Compare) and _is_name(g.left, OUT) and len(g.ops) == 1 and isinstance(g.ops[0], ast.NotIn)
            and isinstance(g.comparators[0], (ast.Tuple, ast.List, ast.Set))
            and sorted(getattr(c, "value", None) for c in g.comparators[0].elts) == ["", "-"])
     if not okg:
@@ -218,7 +226,7 @@ def translate(repo):
     facts["mul_key"] = _option(f1.body[0].body[0].value, optvar)
     ok2 = (isinstance(f2, ast.If) and isinstance(f2.test, ast.Compare) and _is_name(f2.test.left, ev)
            and len(f2.test.ops) == 1 and isinstance(f2.test.ops[0], ast.Gt) and isinstance(f2.test.comparators[0], ast.Constant)
-           and isinstance(f2.test.comparators[0].value, int) and not f2.orelse and len(f2.body) == 1 and _augadd(f2.body[0], "out"))
+           and isinstance(f2.test.comparators[0].value, int) and not f2.orelse and len(f2.body) == 1 and _augadd(f2.body[0], OUT))
     if not ok2:
         raise TranslatorError("exponent part not recognised")
     facts["pow_threshold"] = f2.test.comparators[0].value
@@ -230,10 +238,10 @@ def translate(repo):
     # 5. the plus rule
     st = lb.pop(0)
     ok = (isinstance(st, ast.If) and isinstance(st.test, ast.BoolOp) and isinstance(st.test.op, ast.And)
-          and len(st.test.values) == 2 and _is_name(st.test.values[0], "output") and not st.orelse
-          and len(st.body) == 1 and _assign_to(st.body[0], "out") and isinstance(st.body[0].value, ast.BinOp)
+          and len(st.test.values) == 2 and _is_name(st.test.values[0], OUTPUT) and not st.orelse
+          and len(st.body) == 1 and _assign_to(st.body[0], OUT) and isinstance(st.body[0].value, ast.BinOp)
           and isinstance(st.body[0].value.op, ast.Add) and _const(st.body[0].value.left, "+")
-          and _is_name(st.body[0].value.right, "out"))
+          and _is_name(st.body[0].value.right, OUT))
     if not ok:
         raise TranslatorError("plus statement not recognised")
     t = st.test.values[1]
@@ -242,23 +250,24 @@ def translate(repo):
         facts["plus_rule"] = "PlusByValue"
     elif (isinstance(t, ast.UnaryOp) and isinstance(t.op, ast.Not) and isinstance(t.operand, ast.Call)
           and isinstance(t.operand.func, ast.Attribute) and t.operand.func.attr == "startswith"
-          and _is_name(t.operand.func.value, "out") and len(t.operand.args) == 1 and _const(t.operand.args[0], "-")):
+          and _is_name(t.operand.func.value, OUT) and len(t.operand.args) == 1 and _const(t.operand.args[0], "-")):
         facts["plus_rule"] = "PlusByText"
     else:
         raise TranslatorError("the test that decides about '+' is neither float(c) >= 0 nor not out.startswith('-')")
     # 6. append
     st = lb.pop(0)
-    ok = (isinstance(st, ast.Expr) and isinstance(st.value, ast.Call) and _chain(st.value.func) == "output.append"
-          and len(st.value.args) == 1 and _is_name(st.value.args[0], "out"))
+    ok = (isinstance(st, ast.Expr) and isinstance(st.value, ast.Call) and _chain(st.value.func) == OUTPUT + ".append"
+          and len(st.value.args) == 1 and _is_name(st.value.args[0], OUT))
     if not ok or lb:
         raise TranslatorError("end of the loop body not recognised")
 
     # ---------------- to_string: join / fallback ------------------------------------------------
     ts = funcs["to_string"]
     tail = _strip_doc(ts.body)[-3:]
-    ok = (len(tail) == 3 and _assign_to(tail[0], "output") and isinstance(tail[0].value, ast.Call)
+    ok = (len(tail) == 3 and isinstance(tail[0], ast.Assign) and len(tail[0].targets) == 1
+          and isinstance(tail[0].targets[0], ast.Name) and isinstance(tail[0].value, ast.Call)
           and _is_name(tail[0].value.func, "_to_string")
-          and isinstance(tail[1], ast.If) and _is_name(tail[1].test, "output") and len(tail[1].body) == 1
+          and isinstance(tail[1], ast.If) and _is_name(tail[1].test, tail[0].targets[0].id) and len(tail[1].body) == 1
           and isinstance(tail[1].body[0], ast.Return) and isinstance(tail[1].body[0].value, ast.Call)
           and isinstance(tail[1].body[0].value.func, ast.Attribute) and tail[1].body[0].value.func.attr == "join"
           and _const(tail[1].body[0].value.func.value, "")
